@@ -46,8 +46,8 @@ func Shrink(tr vs.Trace, test func(vs.Trace) (bool, vs.Trace), deadline time.Tim
 		if !ok {
 			return false
 		}
-		// accept only if not larger
-		if traceLen(canon) > traceLen(cur) || (traceLen(canon) == traceLen(cur) && traceSum(canon) > traceSum(cur)) {
+		// accept only a strict improvement in (length, sum of values)
+		if !(traceLen(canon) < traceLen(cur) || (traceLen(canon) == traceLen(cur) && traceSum(canon) < traceSum(cur))) {
 			return false
 		}
 		cur = cloneTrace(canon)
